@@ -38,9 +38,10 @@ CeilDiv(a, b) == (a + b - 1) \div b
 ----------------------------------------------------------------------------
 (* Member alphabet.  k = "obj" | "bf"; w = bit width (bf only); nm = named;
    ua = the member carries its own _Alignas (honoured even when packed).    *)
-Obj(id, sz, al) == [id |-> id, k |-> "obj", sz |-> sz, al |-> al, w |-> -1, nm |-> TRUE, ua |-> FALSE]
+Obj(id, sz, al) == [id |-> id, k |-> "obj", sz |-> sz, al |-> al, w |-> -1, nm |-> TRUE, ua |-> FALSE,
+                   lal |-> al, flex |-> FALSE]
 Bf(t, sz, w, nm) == [id |-> (IF nm THEN "bf_" ELSE "ubf_") \o t \o "_" \o ToString(w),
-                     k |-> "bf", sz |-> sz, al |-> sz, w |-> w, nm |-> nm, ua |-> FALSE]
+                     k |-> "bf", sz |-> sz, al |-> sz, w |-> w, nm |-> nm, ua |-> FALSE, lal |-> sz, flex |-> FALSE]
 
 (* ---- depth 2: nested aggregates are laid out by this very specification ---- *)
 StepA(c, m, packed, union) ==
@@ -71,6 +72,8 @@ MLong == Obj("long", 8, 8)    MChar3 == Obj("char3", 3, 1)
 Nest(id, ms, packed, union, aln) ==
   LET c == LayoutA(ms, packed, union, aln) IN Obj(id, SizeOf(c), c.al)
 
+AlignAsType(id, t) == [MChar EXCEPT !.id = id, !.al = t.al, !.lal = t.al, !.ua = TRUE]
+Flex(id, elem) == [Obj(id, 0, elem.al) EXCEPT !.flex = TRUE]
 Objs == { MChar, MShort, MInt, MLong, Obj("float", 4, 4), Obj("double", 8, 8), Obj("ldouble", 16, 16),
           Obj("ptr", 8, 8), MChar3, Obj("int2", 8, 4),
           Nest("s_ci", <<MChar, MInt>>, FALSE, FALSE, 0),          \* struct {char a; int b;}
@@ -79,7 +82,16 @@ Objs == { MChar, MShort, MInt, MLong, Obj("float", 4, 4), Obj("double", 8, 8), O
           Nest("sp_ci", <<MChar, MInt>>, TRUE, FALSE, 0),          \* packed struct {char a; int b;}
           Nest("s16_i", <<MInt>>, FALSE, FALSE, 16),              \* aligned(16) struct {int a;}
           Nest("anon_cs", <<MChar, MShort>>, FALSE, FALSE, 0),     \* anonymous struct {char x; short y;}
-          [MChar EXCEPT !.id = "al8_char", !.al = 8, !.ua = TRUE] \* _Alignas(8) char
+          [MChar EXCEPT !.id = "al8_char", !.al = 8, !.lal = 8, !.ua = TRUE], \* _Alignas(8) char
+          \* _Alignas(type-name): the ALIGNMENT of the type (8 resp. 4), not its size (16 resp. 8)
+          AlignAsType("alS_char", Nest("", <<MLong, MLong>>, FALSE, FALSE, 0)),       \* _Alignas(struct {long a, b;}) char
+          AlignAsType("alI2_char", Obj("", 8, 4)),                                     \* _Alignas(int[2]) char
+          \* several _Alignas: the strictest wins (C11 6.7.5p6); the pinned tree took the last
+          [MChar EXCEPT !.id = "al28_char", !.al = 8, !.lal = 8, !.ua = TRUE],          \* _Alignas(2) _Alignas(8) char
+          [MChar EXCEPT !.id = "al82_char", !.al = 8, !.lal = 2, !.ua = TRUE],          \* _Alignas(8) _Alignas(2) char
+          \* flexible array members: size 0, alignment of the element type; last member only
+          Flex("flex_char", MChar), Flex("flex_int", MInt), Flex("flex_long", MLong),
+          Flex("flex_sci", Nest("", <<MChar, MInt>>, FALSE, FALSE, 0))
         }
 BfTypes == << <<"char", 1>>, <<"short", 2>>, <<"int", 4>>, <<"uint", 4>>, <<"long", 8>> >>
 Widths == {1, 3, 7, 8, 9, 15, 17, 31, 32, 33, 63}
@@ -87,7 +99,7 @@ Bfs == UNION { { Bf(BfTypes[i][1], BfTypes[i][2], w, TRUE) : w \in {x \in Widths
                : i \in DOMAIN BfTypes }
        \cup { Bf("int", 4, 3, FALSE), Bf("short", 2, 9, FALSE), Bf("long", 8, 33, FALSE),
               Bf("char", 1, 0, FALSE), Bf("int", 4, 0, FALSE), Bf("long", 8, 0, FALSE) }
-SmallIds == {"char", "int", "long", "char3", "ldouble", "s_ci", "al8_char",
+SmallIds == {"char", "int", "long", "char3", "ldouble", "s_ci", "al8_char", "alS_char", "flex_int", "flex_long",
              "bf_char_3", "bf_short_9", "bf_int_1", "bf_int_17", "bf_int_31", "bf_uint_32", "bf_long_33",
              "bf_long_63", "ubf_int_3", "ubf_int_0", "ubf_long_0"}
 Alphabet == IF Small THEN {m \in Objs \cup Bfs : m.id \in SmallIds} ELSE Objs \cup Bfs
@@ -97,8 +109,9 @@ Attrs == { [packed |-> p, aln |-> a] : p \in BOOLEAN, a \in {0, 2, 16} }
 ----------------------------------------------------------------------------
 (* Level I: one iteration of the loops in struct_decl / union_decl.  `mal` is
    mem->align (attr.align if given, else the type's).                       *)
-StepI(c, m, packed, union) ==
-  LET raise == IF Pinned THEN (~packed \/ union) /\ c.al < m.al
+StepI(c, m0, packed, union) ==
+  LET m == IF Pinned THEN [m0 EXCEPT !.al = m0.lal] ELSE m0       \* pinned: the last _Alignas wins
+      raise == IF Pinned THEN (~packed \/ union) /\ c.al < m.al
                ELSE ~packed /\ c.al < m.al /\ (m.k = "obj" \/ m.nm)       \* repaired: unnamed bit-fields / packed unions
       al2   == IF raise THEN m.al ELSE c.al
   IN
@@ -139,6 +152,8 @@ Init == /\ union \in BOOLEAN
    own _Alignas inside a packed aggregate                                    *)
 InDomain(m) == /\ ~(m.k = "bf" /\ m.w = 0 /\ (attr.packed \/ union))
                /\ ~(m.ua /\ attr.packed)
+               /\ (m.flex => ~union /\ \E i \in DOMAIN ms : ms[i].nm)   \* a flexible array member needs a named member before it
+               /\ (ms # <<>> => ~ms[Len(ms)].flex)                 \* ... and is the last member
 
 Case(ms2, a2) == [union |-> union, packed |-> attr.packed, aln |-> attr.aln,
                   ms |-> [i \in DOMAIN ms2 |-> ms2[i].id],
